@@ -3,7 +3,7 @@ import vlib, proglib
 from proglib import DT, DT_BITS
 
 import glob, os as _os
-PROP_FILES = sorted(_os.path.basename(f) for f in glob.glob(_os.path.join(vlib.COQ, "Properties_C01*.v"))) + ["Properties_gen.v", "Properties_refine.v", "Properties_reader.v", "Properties_compose.v", "Properties_e2e.v"]
+PROP_FILES = sorted(_os.path.basename(f) for f in glob.glob(_os.path.join(vlib.COQ, "Properties_C01*.v"))) + ["Properties_gen.v", "Properties_refine.v", "Properties_reader.v", "Properties_compose.v", "Properties_e2e.v", "Properties_links.v"]
 FIRST_IDS = [0, 0, 0, 1, 3, 7, 8, 16, -5, 2**40 + 1, 1000]
 
 
